@@ -1,10 +1,10 @@
 From Coq Require Import Extraction ExtrOcamlBasic ZArith List.
-From MV Require Import Par.Sched Par.ParDefs Par.Containers.
+From MV Require Import Par.Sched Par.ParDefs Par.Containers Par.RadixBuf.
 Extraction Language OCaml.
 Extraction "../build/ml/c13_model.ml"
-  legal_for legal_reduce legal_scan legal_invoke legal_combinable exec_leaves
+  legal_for legal_reduce legal_scan legal_scan_inplace excl_scan_inplace incl_scan_inplace legal_invoke legal_combinable exec_leaves
   merge isort pmerge merge_sort merge_sort_buf radix_sort lsb_radix_sort
   reduce_par reduce_seq all_of_par
   excl_scan_par incl_scan_par copy_if_par copy_if_body_par remove_if_par unique_par dedup
-  uf_run_seq ht_run ht_find
+  uf_run_seq ht_run ht_find lsb_radix_sort_buf
   par_for seq_for fe_for_each fe_transform fe_copy fe_fill fe_sequence fe_gather fe_scatter.
